@@ -22,7 +22,7 @@
 import inspect
 import ast
 from functools import update_wrapper, partial
-from weakref import WeakKeyDictionary
+from weakref import WeakValueDictionary
 
 
 def get_funcsigs():
@@ -77,7 +77,10 @@ class OverrideableDataDesc(object):
                 kwargs.update(self.parameters())
                 return type(self)(func, **kwargs)
             self.custom_getter = cg
-        self.insts = WeakKeyDictionary()
+        # bound wrappers are cached for as long as someone holds them; a
+        # weak-key mapping would never let go of them, as each wrapper
+        # refers to the bound function it is keyed by
+        self.insts = WeakValueDictionary()
         super(OverrideableDataDesc, self).__init__(*args, **kwargs)
 
     def __get__(self, instance, owner):
